@@ -34,6 +34,7 @@ open Edzed.Fsm Edzed.Gen.TrM
 /-- exception classes raised by `_ctx_event` and what it calls -/
 inductive Exc where
   | unknownEvent | circuitError | valueError | assertion
+  | other     -- any class the model does not raise (TypeError, RuntimeError, …)
   deriving DecidableEq, Repr, Inhabited
 
 /-- how the model's result shows at the Python level: the value returned or the exception class -/
@@ -55,10 +56,10 @@ def excOfRes : Res → Exc
 
 def excOf (name : String) : Exc :=
   if name == "EdzedUnknownEvent" then .unknownEvent
+  else if name == "EdzedCircuitError" then .circuitError
   else if name == "AssertionError" then .assertion
-  else if name == "TypeError" then .assertion
   else if name == "ValueError" then .valueError
-  else .circuitError
+  else .other
 
 /-- the block as `_ctx_event` sees it -/
 structure TS where
